@@ -827,7 +827,7 @@ def sheet_forms() -> dict[str, WB]:
 def shape_cases(tier) -> list[Case]:
     out = []
     survey = (["type", "name", "label", "hint"], [
-        ["text", "q1", "Q1", None], ["select_one l", "q2", "Q2", "h2"], ["integer", "q3", None, None],
+        ["text", "q1", "Q1", None], ["select_one l", "q2", "Q2", "h2"], ["integer", "q3", None, "only a hint"],
         ["note", "q4", "N ${q1}", None]])
     choices = (["list_name", "name", "label", "extra"], [["l", "a", "A", "1"], ["l", "b", "B", None], ["l", "c", "C", "3"], ["m", "x", "X", None]])
     base = WB({"survey": survey, "choices": choices})
